@@ -49,6 +49,10 @@ def obligations(tier, seed=0):
     add('pow_int', bc=4, n=3, prec=3, rnd='n', entry='op')
     add('pow_int', bc=4, n=-2, prec=3, rnd='n', entry='op')
     add('pow_int', bc=5, n=2, prec=3, rnd='n', entry='op')
+    # exponents with more significant bits than the working precision (the int must not be rounded on its way to the kernel)
+    add('pow_int', bc=3, n=9, prec=3, rnd='n', entry='op')
+    add('pow_int', bc=2, n=5, prec=2, rnd='n', entry='op')
+    add('pow_int', bc=3, n=-5, prec=2, rnd='n', entry='op')
     for a in ('zero', 'inf', 'ninf', 'nan'):
         for n in (0, 1, 2, 3, -1, -2, -3):
             if a == 'zero' and n < 0:
